@@ -178,8 +178,9 @@ def _js(x):
 _W = {}
 
 
-def _worker_init(hname, qtimeout):
+def _worker_init(hname, qtimeout, audit_every=0):
     sys.setrecursionlimit(10000)
+    _W["audit_every"] = audit_every
     from . import loader
     h = importlib.import_module(f"harness.{hname}")
     _W["h"] = h
@@ -215,6 +216,7 @@ def _job(args):
     from . import engine as E
     h, mods = _W["h"], _W["mods"]
     ex = E.Explorer(query_timeout_ms=_W["qtimeout"])
+    ex.audit_every = _W.get("audit_every", 0)
     out = {"sk": sk_idx, "refuted": [], "raised": [], "unsupported": [], "unknown": [], "samples": [],
            "nontrivial": 0, "functions": [], "tie_paths": 0}
 
@@ -275,6 +277,7 @@ def _job(args):
         rest, n = ex.explore(path_fn, roots=roots, max_paths=max_paths, deadline=deadline, on_path=on_path)
     out["leftover"] = rest
     out["stats"] = ex.stats.as_dict()
+    out["audit"] = getattr(ex, "audit", None)
     return out
 
 
@@ -356,7 +359,7 @@ def run_check(hname, tier, jobs=None, budget_s=None):
     leftover_total = 0
     from concurrent.futures import FIRST_COMPLETED, ProcessPoolExecutor, wait
     with ProcessPoolExecutor(max_workers=jobs, mp_context=ctx_mp, initializer=_worker_init,
-                             initargs=(hname, qtimeout)) as pool:
+                             initargs=(hname, qtimeout, 0 if tier == "quick" else 150)) as pool:
         futs = {}
         while pending_jobs or futs:
             while pending_jobs and len(futs) < jobs * 2:
@@ -379,6 +382,11 @@ def run_check(hname, tier, jobs=None, budget_s=None):
                 if len(agg["samples"]) < 6:
                     agg["samples"].extend(out["samples"][:1])
                 agg["nontrivial"] += out["nontrivial"]
+                if out.get("audit"):
+                    a = agg.setdefault("audit", {"audited": 0, "agree": 0, "disagree": 0, "inconclusive": 0, "examples": []})
+                    for k2 in ("audited", "agree", "disagree", "inconclusive"):
+                        a[k2] += out["audit"][k2]
+                    a["examples"] = (a["examples"] + out["audit"]["examples"])[:5]
                 for w in out.get("witnesses", []):
                     w["sk"] = out["sk"]
                     agg["witnesses"].append(w)
@@ -525,6 +533,7 @@ def run_check(hname, tier, jobs=None, budget_s=None):
             "solver_s": round(total.solver_s, 2), "max_path_depth": total.max_depth,
             "paths_aborted_infeasible_assumption": total.aborted, "paths_inconclusive_unsupported": total.unsupported,
             "paths_raised": total.raised, "paths_using_tie_order_choice": agg["tie_paths"],
+            "cvc5_cross_audit": agg.get("audit", "not run in the quick tier"),
             "traces_validated_against_impl": validated,
             "validation_rule": "witness inputs (solver models with distinct positive times where possible) of paths whose "
                                "obligations were all discharged, replayed through the real code with real pandas; all "
@@ -564,6 +573,9 @@ def run_check(hname, tier, jobs=None, budget_s=None):
     if agg["unsupported"]:
         print(f"INCONCLUSIVE: property={pid} {total.unsupported} path(s) left the modelled pandas subset, e.g. "
               f"{agg['unsupported'][0]['error']}", file=sys.stderr)
+    if isinstance(agg.get("audit"), dict) and agg["audit"]["disagree"]:
+        print(f"INCONCLUSIVE: property={pid} cvc5 disagrees with z3 on {agg['audit']['disagree']} of "
+              f"{agg['audit']['audited']} audited obligations (z3: unsat, cvc5: sat)", file=sys.stderr)
     for sig, (k, outdir) in known_hits.items():
         print(f"KNOWN-FINDING: property={pid} {k.get('description', sig)}")
     if violations:
